@@ -181,6 +181,7 @@ class Interp:
         if self.primary is not None:
             self.lalias = {a for a, t in self.primary.imports.items() if t == LNODES}
         self.classes = classes
+        self.extra_bases: dict = {}  # class name of a sample Node -> names of its (foreign) base classes, for isinstance
         self.overrides: dict = {}  # name -> _PyCall / value: stubs for callees outside the interpreted modules
         self.obj_classes: dict[str, str] = {}  # class name -> module name, for sample objects of non-LNodes classes
         self.ctx: list = []  # module context of the function being interpreted (name resolution follows its imports)
@@ -303,6 +304,33 @@ class Interp:
         if f is None:
             raise AnalysisError(f"absint: {obj.cls} has no method {name}")
         return self.call_f(f, [obj] + list(args))
+
+    def init_object(self, obj: "Node", init, args: list, kwargs=None) -> list[str]:
+        """Run a constructor's statements on `obj` one by one; a statement the interpreter cannot model (dispatch tables keyed by
+        foreign classes, ...) is skipped and reported, so that plain state (`self.cache = {}`) the methods rely on exists."""
+        skipped = []
+        params = [a.arg for a in init.node.args.args]
+        env = {params[0]: obj}
+        defaults = init.node.args.defaults
+        for i, p_ in enumerate(params[1:], start=1):
+            if i - 1 < len(args):
+                env[p_] = args[i - 1]
+            elif kwargs and p_ in kwargs:
+                env[p_] = kwargs[p_]
+            elif i - (len(params) - len(defaults)) >= 0:
+                env[p_] = self.expr(defaults[i - (len(params) - len(defaults))], {})
+            else:
+                env[p_] = None
+        self.ctx.append(init.module)
+        try:
+            for st in init.node.body:
+                try:
+                    self.stmt(st, env)
+                except (AnalysisError, Raised):
+                    skipped.append(ast.unparse(st).split("\n")[0][:60])
+        finally:
+            self.ctx.pop()
+        return skipped
 
     def call_f(self, f, args: list, kwargs=None):
         """Call a model.Func in the context of its own module."""
@@ -524,6 +552,9 @@ class Interp:
         if isinstance(it, PyNative):
             return list(it)
         if isinstance(it, (set, frozenset)):
+            if all(isinstance(x, int) and not isinstance(x, bool) for x in it):
+                # ints hash to themselves (no hash seed): the order is CPython's slot order, reproduced by the analysis host's own CPython
+                return list(it)
             raise AnalysisError("absint: iteration over a set (order not defined)")
         raise AnalysisError(f"absint: cannot iterate {type(it).__name__}")
 
@@ -603,8 +634,11 @@ class Interp:
         flat(target_node)
         for t in targets:
             last = t.split(".")[-1]
-            if isinstance(x, Node):
-                chain = [x.cls] + (self.classes[x.cls].bases if x.cls in self.classes else [])
+            if isinstance(x, PyNative):
+                if last in [c.__name__ for c in type(x).__mro__]:
+                    return True
+            elif isinstance(x, Node):
+                chain = [x.cls] + (self.classes[x.cls].bases if x.cls in self.classes else []) + list(self.extra_bases.get(x.cls, ()))
                 if last in chain:
                     return True
                 if last in env and isinstance(env[last], tuple):
@@ -780,6 +814,9 @@ class Interp:
                 return all(v == IMAG for p_ in (base.num, base.den) for mono in p_ for v, _k in mono)
             if isinstance(base, _Cls) and e.attr == "__name__":
                 return base.name
+            if isinstance(base, _Cls) and e.attr == "__bases__":
+                bs = (self.classes[base.name].bases[:1] if base.name in self.classes else []) or list(self.extra_bases.get(base.name, ()))[:1]
+                return tuple(_Cls(b) for b in bs)
             if isinstance(base, _Cls):
                 m = self.find_method(base.name, e.attr)
                 if m is not None:
@@ -945,6 +982,12 @@ class Interp:
             return self.isinstance_(self.expr(args[0], env), args[1], env)
         vals = [self.expr(a, env) if isinstance(a, ast.AST) else a for a in args]
         for k in e.keywords:
+            if k.arg is None:
+                d_ = self.expr(k.value, env)
+                if not isinstance(d_, dict):
+                    raise AnalysisError("absint: ** of a non-dict")
+                kw.update(d_)
+                continue
             kw[k.arg] = self.expr(k.value, env)
         if fn in self.overrides and isinstance(self.overrides[fn], _PyCall) and fn.split(".")[0] not in env:
             try:
@@ -968,6 +1011,11 @@ class Interp:
             return [(i, x) for i, x in enumerate(self.iterate(vals[0]))]
         if fn == "reversed":
             return list(reversed(self.iterate(vals[0])))
+        if fn == "itertools.chain":
+            out_ = []
+            for v_ in vals:
+                out_.extend(self.iterate(v_))
+            return out_
         if fn in ("list", "tuple"):
             v = self.iterate(vals[0]) if vals else []
             return list(v) if fn == "list" else tuple(v)
@@ -1147,6 +1195,15 @@ class _Cont:
 class _Cls:
     def __init__(self, name):
         self.name = name
+
+    def __eq__(self, o):
+        return isinstance(o, _Cls) and o.name == self.name
+
+    def __hash__(self):
+        return hash(("_Cls", self.name))
+
+    def __repr__(self):
+        return f"<class {self.name}>"
 
 
 class _Bound:
